@@ -17,6 +17,8 @@ use unic_langid::LanguageIdentifier;
 
 struct BSpec {
     locale: Option<LanguageIdentifier>,
+    /// further locales of the same bundle (`b:en-GB+en:...` = `FluentBundle::new(vec![en-GB, en])`); errors name the first
+    more: Vec<LanguageIdentifier>,
     loc_txt: String,
     brk: u8,
     entries: Vec<(String, char)>,
@@ -84,7 +86,7 @@ impl Seq {
         let s = self.specs.get(self.idx)?;
         self.idx += 1;
         self.built.set(self.built.get() + 1);
-        Some(build_bundle(s.locale.clone(), &s.loc_txt, s.brk, &s.entries))
+        Some(build_bundle(s.locale.iter().chain(s.more.iter()).cloned().collect(), &s.loc_txt, s.brk, &s.entries))
     }
 }
 
@@ -130,20 +132,29 @@ fn parse_bundle(seg: &str) -> Option<BSpec> {
     let p: Vec<&str> = seg.split(':').collect();
     match p.as_slice() {
         ["b", loc, brk, ents] => {
+            let mut more = vec![];
             let locale = if *loc == "_" {
                 None
             } else {
-                let l: LanguageIdentifier = loc.parse().ok()?;
-                if l.to_string() != *loc {
-                    return None; // only canonical spellings, so that both sides print the same text
+                let mut first = None;
+                for (i, part) in loc.split('+').enumerate() {
+                    let l: LanguageIdentifier = part.parse().ok()?;
+                    if l.to_string() != part {
+                        return None; // only canonical spellings, so that both sides print the same text
+                    }
+                    if i == 0 {
+                        first = Some(l);
+                    } else {
+                        more.push(l);
+                    }
                 }
-                Some(l)
+                first
             };
             let brk: u8 = brk.parse().ok()?;
             if brk > 4 {
                 return None;
             }
-            Some(BSpec { locale, loc_txt: loc.to_string(), brk, entries: parse_entries(ents)? })
+            Some(BSpec { locale, more, loc_txt: loc.to_string(), brk, entries: parse_entries(ents)? })
         }
         _ => None,
     }
